@@ -11,6 +11,8 @@ use std::fmt::{self, Debug, Formatter};
 pub struct Outcome {
     pub out: String,
     pub ok: bool,
+    /// the formatting call panicked (caught): an outcome of its own, compared like the others
+    pub panicked: bool,
     pub fired: u32,
     pub fired_depth: u32,
     pub fired_scripts_entered: u32,
@@ -21,7 +23,7 @@ pub struct Outcome {
 
 impl Outcome {
     pub fn same(&self, o: &Outcome) -> bool {
-        self.ok == o.ok && self.out == o.out
+        self.ok == o.ok && self.out == o.out && self.panicked == o.panicked
     }
 }
 
@@ -83,7 +85,7 @@ pub fn run_module(case: &Case, side: Side, module: Option<Module>) -> Outcome {
     script::set_side(side);
     script::probe_reset();
     let mut sink = FaultSink::new(case.sink);
-    let res = match &case.layer {
+    let caught = std::panic::catch_unwind(std::panic::AssertUnwindSafe(|| match &case.layer {
         Layer::Builder {
             name,
             fields,
@@ -100,10 +102,15 @@ pub fn run_module(case: &Case, side: Side, module: Option<Module>) -> Outcome {
             let m = module.unwrap_or_else(|| module_for(side, *type_idx));
             corpus::with_value(m, *type_idx, data, &mut |v| fmt_in_ctx(v, case, &mut sink))
         }
+    }));
+    let (res, panicked) = match caught {
+        Ok(r) => (r, false),
+        Err(_) => (Err(fmt::Error), true),
     };
     let probe = script::probe_take();
     Outcome {
         ok: res.is_ok(),
+        panicked,
         fired: sink.fired,
         fired_depth: sink.fired_depth,
         fired_scripts_entered: sink.fired_scripts_entered,
@@ -186,7 +193,9 @@ pub fn judge(case: &Case) -> Judged {
             rf,
         };
     }
-    let what = if dm.ok != rf.ok {
+    let what = if dm.panicked != rf.panicked {
+        format!("derive_more {} where std {}", if dm.panicked { "panics" } else { "does not panic" }, if rf.panicked { "panics" } else { "does not" })
+    } else if dm.ok != rf.ok {
         format!("result differs: derive_more {} vs std {}", res_s(dm.ok), res_s(rf.ok))
     } else {
         let at = dm
